@@ -283,6 +283,9 @@ STEREO_TEMPLATES = [
     '{a}[C@@]({b})({c}){d}', '{c}.[C@H]({a})({b}){d}', '{a}[C@H]1CC[C@@H]({b})CC1', '{a}[C@H]1CC[C@H]({b})CC1',
     'C1C[C@H]({a})[C@@H]({b})C1', '{a}[C@@H]1CCCC[C@H]1{b}', '[C@H]1({a})CCCC[C@@H]1{b}', '{a}/C=C1/CCCC({b})C1',
     '{a}/C=C/1CCCC({b})C1', 'C1=C/CCCCCC/1',
+    # double bond whose substituents are ring-closure partners written before / after it, across dots
+    '{a}/1.{b}\\2.{c}/C=C12', '{a}/1.{c}/C=C1{b}', '{a}1.{c}/C=C/1{b}', '{c}/C=C1{b}.{a}\\1', '{c}/C=C/1{b}.{a}1',
+    '{a}1.{b}2.{c}/C=C/1\\2', '{a}/1.{b}2.{c}/C({d})=C12', '{a}1.{c}\\C({d})=C1/{b}',
     # labels that are stereogenic only because of other labels (centre<-bond, centre<-centre, bond<-centre, chains of them)
     '{a}/C=C/[C@H]({b})/C=C\\{a}', '{a}/C=C/[C@@H]({b})/C=C\\{a}', '{a}/C=C\\[C@]({b})({c})/C=C/{a}',
     '{a}/C=C/[C@@]({b})({c})/C=C\\{a}', 'C(/{a})=C/[C@H]({b})\\C=C/{a}', '{a}[C@H]({b})[C@H]({c})[C@@H]({b}){a}',
@@ -302,6 +305,46 @@ def gen_stereo(rng):
     t = rng.choice(STEREO_TEMPLATES)
     subs = rng.sample(SUBST, 4)
     return t.format(a=subs[0], b=subs[1], c=subs[2], d=subs[3])
+
+
+RSUB = ['F', 'Cl', 'Br', 'I', 'O', 'N', 'S', 'C', 'CC', 'CCC']
+
+
+def gen_chiral_spelling(rng):
+    """one tetrahedral centre whose substituents are attached in every way the language offers: as the preceding atom, as a
+    ring-closure partner written before the centre (across a dot), as a ring-closure partner written after it, as a branch;
+    the centre therefore sits at the string start, after a dot, after an atom, opens rings, closes rings, or both"""
+    with_h = rng.random() < 0.55
+    n = 3 if with_h else 4
+    subs = rng.sample(RSUB, n)
+    modes = [rng.choice(['pre', 'rb', 'ra', 'br', 'br']) for _ in subs]
+    while modes.count('pre') > 1:
+        modes[modes.index('pre')] = rng.choice(['rb', 'ra', 'br'])
+    labels = rng.sample(range(1, 10), n) if rng.random() < 0.8 else rng.sample(range(10, 99), n)
+
+    def lab(k):
+        return str(k) if k < 10 else '%%%d' % k
+    before, pre, digits, branches, after = [], '', [], [], []
+    for sub, m, k in zip(subs, modes, labels):
+        if m == 'pre':
+            pre = sub
+        elif m == 'rb':
+            before.append(sub + lab(k) + '.')
+            digits.append(lab(k))
+        elif m == 'ra':
+            digits.append(lab(k))
+            after.append('.' + sub + lab(k))
+        else:
+            branches.append(sub)
+    rng.shuffle(digits)
+    centre = '[C' + rng.choice(['@', '@@']) + ('H' if with_h else '') + ']' + ''.join(digits)
+    if branches and rng.random() < 0.5:
+        tail = ''.join('(' + x + ')' for x in branches[:-1]) + branches[-1]
+    else:
+        tail = ''.join('(' + x + ')' for x in branches)
+    if rng.random() < 0.15:   # something unrelated in front, so that the centre is not the first atom of the string
+        before.insert(0, rng.choice(['O.', 'CC.', '[Na+].']))
+    return ''.join(before) + pre + centre + tail + ''.join(after)
 
 
 def gen_cx(rng, natoms_hint=6, nmol=3):
@@ -411,7 +454,8 @@ def streams(ctx):
         for c in syms:
             for t in ('C{o}1CCC{c}1', 'c{o}1cccc{c}1', 'C{o}1cccc{c}1', 'F/C=C{o}1CCCC{c}1', 'C{o}%12CC(C{c}%12)F', 'F{o}1.Cl{c}1',
                       'C{o}1CC=C{c}1/F', 'C(F){o}1CC{c}1', 'C{o}1{c}1', 'C{o}1C{c}1', 'F/C=C{o}1CCOC{c}1', 'F\\C(Cl)=C{o}1CCOC{c}1',
-                      'C{o}1CCOC{c}1=C/F', 'F/C=C/C=C{o}1COCC{c}1'):
+                      'C{o}1CCOC{c}1=C/F', 'F/C=C/C=C{o}1COCC{c}1', 'F/C=C{o}1.Cl{c}1', 'Cl{o}1.F/C=C{c}1', 'Cl{o}1.F/C(Br)=C{c}1I',
+                      'F/C(I)=C{o}1Br.Cl{c}1'):
                 yield 'ring-bond-grid', t.format(o=o, c=c)
     # reactions with distinct one-atom molecules and every kind of fragment grouping (within / across roles, out of range)
     mols9 = ['C', 'N', 'O', 'S', 'P', 'F', 'Cl', 'Br', 'I']
@@ -503,6 +547,8 @@ def streams(ctx):
         yield 'grammar', s
     for _ in range(1500 if quick else 12000):
         yield 'stereo-templates', gen_stereo(rng)
+    for _ in range(1200 if quick else 10000):
+        yield 'chiral-spellings', gen_chiral_spelling(rng)
     base = gen + corpus
     n_cor = 2500 if quick else 20000
     for _ in range(n_cor):
